@@ -43,6 +43,8 @@ def wspec_desc(rng, shape, rate, bs, **kw):
          't0': rng.choice([0, 0, 8, -12, 100]), 'dt': rng.choice([4000, 2000, 1000, 500, 250, 3000]),
          'narr': rng.choice([0, 1, 2, 3, 5]), 'cubeseed': rng.randrange(1 << 20),
          'valkind': rng.choice(['smooth', 'smooth', 'smooth', 'noise', 'ramp', 'neg', 'huge', 'tiny'])}
+    if len(shape) == 3 and rng.random() < 0.2:
+        d['f64'] = rng.choice([[8.5, 2.5], [-100.25, 0.5], [0.0, 1.001], [100.0, 4.0]])     # float64 sample axis (as in ZGY-sourced files)
     d.update(kw)
     if tuple(d['version']) <= (0, 1, 6) and len(shape) == 3:
         d['dt'] = max(1000, d['dt'] // 1000 * 1000)    # files up to 0.1.6 can only express whole milliseconds
@@ -109,7 +111,7 @@ def build(desc, scratch, name='in.sgz'):
         oracles.write_sgz(path, data, desc['rate'], tuple(desc['bs']), t0_ms=desc.get('t0', 0),
                           dt_us=desc.get('dt', 4000), arrays=arrays, consts=consts, dups=dups,
                           version=tuple(desc.get('version', (0, 2, 9))), tracecount=tracecount, pad_mode=pad_mode,
-                          filehdr=bytes((i * 7 + 3) % 251 for i in range(3600)), **kw)
+                          filehdr=bytes((i * 7 + 3) % 251 for i in range(3600)), f64=desc.get('f64'), source_code=10 if desc.get('f64') else 20, **kw)
         truth.update(arrays=arrays, consts=consts, dups=dups)
         return path, truth
     if desc['kind'] == 'numpy':
